@@ -123,6 +123,7 @@ func main() {
 	run.Units("seq", run.Pick(1200, 30000), 0, func(unit int64, r *rand.Rand) { sequence(run, unit, r, dir) })
 	// sizes at the top of the uint64 range: the stale-old-size answer must carry the true current size
 	run.Floor("huge_size_stale_answers", 30)
+	run.Floor("in_rate_requests_after_a_refused_burst", 8)
 	run.Units("huge", run.Pick(36, 360), 0, func(unit int64, r *rand.Rand) { hugeSizes(run, unit, r, dir) })
 	run.Units("limit", run.Pick(24, 200), 8, func(unit int64, r *rand.Rand) { limiter(run, unit, r, dir) })
 }
@@ -381,6 +382,17 @@ func limiter(run *ev.Run, unit int64, r *rand.Rand, dir string) {
 		}
 	}
 	el := time.Since(start).Seconds()
+	if mode >= 2 {
+		// refused requests must not be charged to the budget: 1.2 s after the burst (2.4 and 6 tokens refilled,
+		// at most 2 resp. 5 kept) one more request is well within the configured rate and must be processed
+		time.Sleep(1200 * time.Millisecond)
+		rec := e.post(body(strconv.FormatUint(cur, 10), nil, l.Honest(0, cur)))
+		run.Count("evaluations")
+		run.Count("in_rate_requests_after_a_refused_burst")
+		if rec.Code == 429 {
+			run.Violate("limited_although_within_rate;after_refused_burst", fmt.Sprintf("limit %v/s: %d requests of a burst were refused; a single request 1.2 s later was answered 429 although it is within the configured rate", float64(limit), limited), unit, map[string]any{"limit": float64(limit), "limited_in_burst": limited})
+		}
+	}
 	run.Distinct("nontrivial", fmt.Sprintf("limit/%v/%d", float64(limit), processed))
 	d := map[string]any{"limit": float64(limit), "processed": processed, "limited": limited, "elapsed_s": el}
 	switch mode {
